@@ -146,6 +146,23 @@ def mergeAux : List (Lat E) → List (Lat E) → S → List (Lat E)
 /-- `transfer_maps_merged(incoming_beam, except_for)` -/
 def merged (ls : List (Lat E)) (b : S) : List (Lat E) := mergeAux σ c keep ls [] b
 
+/-- the beams `transfer_maps_merged` sends into the items it does not merge (not skippable, or kept by name) — what the
+diagnostics among them record while the lattice is being optimised; `tr` is the beam tracked up to the start of `run` -/
+def mergeArr : List (Lat E) → List (Lat E) → S → List S
+  | [], _, _ => []
+  | l :: ls, run, tr =>
+      if skip σ l && !keep l then mergeArr ls (run ++ [l]) tr
+      else
+        let a := seq σ (closeRun σ c run tr) tr
+        a :: mergeArr ls [] (track σ l a)
+
+def arrivals (ls : List (Lat E)) (b : S) : List S := mergeArr σ c keep ls [] b
+
+/-- reference: the beams element-by-element tracking sends into the same items -/
+def arrSpec : List (Lat E) → S → List S
+  | [], _ => []
+  | l :: ls, b => (if skip σ l && !keep l then [] else [b]) ++ arrSpec ls (track σ l b)
+
 /-! ## filters: `without_inactive_markers`, `without_inactive_zero_length_elements`, `inactive_elements_as_drifts` -/
 
 /-- remove the elements satisfying `drop` unless kept by name -/
